@@ -120,9 +120,23 @@ def check_operation(run, F, ty, spec, T, inline):
         run.ob("R-OPWIRE", "%s: returns the request it built" % short, p.ret is base or same(p.ret, base), "returns %s" % tshow(p.ret)[:120], site(b),
                key="R-OPWIRE|%s|return" % ty)
         got = set()
+        # values modified in place (a `&mut self` method call on them) before they are wrapped into an attribute
+        mutated = {}
+        for t, _c in calls:
+            node = t[3] if len(t) > 3 and isinstance(t[3], dict) else {}
+            if node.get("k") == "mcall" and t[2] and any("Mut" in a.get("a", "") for a in (node["recv"].get("adj") or [])):
+                mutated[tshow(t[2][0])] = t
         for t, conds in calls:
             if t[1] != ADD:
                 continue
+            a_ = t[2][2]
+            if is_call(a_, NEWATTR) and a_[2][1][0] == "ctor" and a_[2][1][2]:
+                src_txt = tshow(a_[2][1][2][0])
+                if src_txt in mutated:
+                    m = mutated[src_txt]
+                    run.ob("R-OPWIRE", "%s: attribute value is the argument, unmodified" % short, False,
+                           "the value of %s is modified in place by %s before it is sent" % (tshow(a_[2][0])[:50], m[1]), site(b, m[3]),
+                           key="R-OPWIRE|%s|mutated-source|%s" % (ty, m[1].split("::")[-1]))
             recv = t[2][0]
             on_base = is_call(recv, "ipp::request::IppRequestResponse::attributes_mut") and (recv[2][0] is base or same(recv[2][0], base))
             if not on_base:
@@ -405,6 +419,12 @@ def check(run, views, tier):
         # "the last one given wins per name": the container's add must replace by name (shared with C19)
         from .c19 import check_add
         check_add(run, F, prefix="R-CONTAINER")
+        # "the target as canonical printer-uri": the canonicalisation clause of C13
+        from . import c13
+        saved1 = (run.explanation, run.trusted, run.not_decided)
+        c13.check(run, {cfg: crates}, tier)
+        run.explanation, run.trusted, run.not_decided = saved1
+        run.cfg = cfg
         # every IppOperation impl is in the table (an added operation must be reviewed)
         for imp in F.impls:
             if imp.get("trait") == "ipp::operation::IppOperation":
